@@ -54,6 +54,10 @@ void AbacusLegalizer::placeCell(int cell) {
    * Simple algorithm that tries close row first and stops early if no
    * improvement can be found
    */
+  if (nbRows() == 0) {
+    // No row left: the cell stays unplaced, which is reported by the caller
+    return;
+  }
   int targetX = cellTargetX_[cell];
   int targetY = cellTargetY_[cell];
   int bestRow = -1;
